@@ -162,7 +162,7 @@ def validate_runs(prim, runs, invs, workdir, label, is_known=None):
         m = re.search(r"Error: Invariant (\w+) is violated", txt)
         if m:
             inv = m.group(1)
-            ls = re.findall(r"l \|-> (\d+)", txt) or re.findall(r"^/\\ l = (\d+)", txt, re.M)
+            ls = re.findall(r"^/\\ l = (\d+)", txt, re.M)
             if not ls:
                 raise ToolError("cannot locate violation position in %s" % out)
             pos = int(ls[-1]) - 1  # line number (1-based) of the event whose processing broke the invariant
@@ -218,7 +218,7 @@ def op_summary(events):
     out = []
     for e in events:
         s = e.get("op", "?")
-        for k in ("f", "s", "r", "n", "w", "v", "id", "t", "d", "i"):
+        for k in ("f", "s", "r", "n", "a", "w", "v", "id", "t", "d", "i", "val"):
             if k in e:
                 s += " %s=%s" % (k, json.dumps(e[k]))
         if "res" in e:
